@@ -87,6 +87,7 @@ enum Kind {
     ExternalSnapshot,
     Snapshot,
     EpochRecord,
+    CommitDescription,
 }
 
 fn kind_of(k: &str) -> Kind {
@@ -96,6 +97,7 @@ fn kind_of(k: &str) -> Kind {
         "external_snapshot" => Kind::ExternalSnapshot,
         "snapshot" => Kind::Snapshot,
         "epoch_record" => Kind::EpochRecord,
+        "commit_description" => Kind::CommitDescription,
         _ => Kind::Message,
     }
 }
@@ -109,6 +111,13 @@ fn decode(kind: Kind, bytes: &[u8]) -> Result<(usize, Vec<u8>, usize), String> {
             let consumed = bytes.len() - s.len();
             let re = m.mls_encode_to_vec().map_err(|e| format!("{e:?}"))?;
             Ok((consumed, re, m.mls_encoded_len()))
+        }
+        Kind::CommitDescription => {
+            let mut s = bytes;
+            let d = mls_rs::group::CommitMessageDescription::mls_decode(&mut s).map_err(|e| format!("{e:?}"))?;
+            let consumed = bytes.len() - s.len();
+            let re = d.mls_encode_to_vec().map_err(|e| format!("{e:?}"))?;
+            Ok((consumed, re, d.mls_encoded_len()))
         }
         Kind::Tree => {
             let t = mls_rs::group::ExportedTree::from_bytes(bytes).map_err(|e| format!("{e:?}"))?;
